@@ -840,7 +840,7 @@ class ArrayOf(DataType):
     def validate(self, value, previous=None):
         self.check_type(value)
         try:
-            if previous:
+            if previous and len(previous) == len(value):
                 return tuple(self.members.validate(v, p) for v, p in zip(value, previous))
             return tuple(self.members.validate(v) for v in value)
         except Exception as e:
